@@ -14,6 +14,35 @@ use crate::common::{Counter, Ctx, Report, Rng, TempDir, Tier, Violation, catch, 
 
 type Fail = (String, String);
 
+/// A second index type ("week" next to "day"): a source keyed by it does not govern the length of
+/// a lazy vector whose own index type is `usize`.
+#[derive(Debug, Default, Clone, Copy, PartialEq, Eq, PartialOrd, Ord)]
+pub struct Other(usize);
+impl From<usize> for Other {
+    fn from(v: usize) -> Self {
+        Self(v)
+    }
+}
+impl From<Other> for usize {
+    fn from(v: Other) -> usize {
+        v.0
+    }
+}
+impl std::ops::Add<usize> for Other {
+    type Output = Self;
+    fn add(self, rhs: usize) -> Self {
+        Self(self.0 + rhs)
+    }
+}
+impl vecdb::PrintableIndex for Other {
+    fn to_string() -> &'static str {
+        "other"
+    }
+    fn to_possible_strings() -> &'static [&'static str] {
+        &["other"]
+    }
+}
+
 fn eq<T: PartialEq>(a: &[T], b: &[T]) -> bool {
     a.len() == b.len() && a.iter().zip(b).all(|(x, y)| x == y)
 }
@@ -463,6 +492,8 @@ fn scenario<S: SrcFmt>(rng: &mut Rng, lens: [usize; 3], starts: Option<Vec<usize
         }
     };
 
+    let mut o1: (BytesVec<Other, u64>, Vec<u64>) = (BytesVec::forced_import(&db, "o1", Version::new(1)).expect("import o1"), vec![]);
+    let mut o2: (BytesVec<Other, u64>, Vec<u64>) = (BytesVec::forced_import(&db, "o2", Version::new(1)).expect("import o2"), vec![]);
     for round in 0..2 {
         let mut cs = Case { stats, rng, exhaustive };
         let desc = json!({"source_format": S::F, "source_lens": [a.data.len(), b.data.len(), c.data.len()], "starts": &starts[..starts.len().min(12)], "mapping": &mapping[..mapping.len().min(12)], "round": round});
@@ -482,6 +513,51 @@ fn scenario<S: SrcFmt>(rng: &mut Rng, lens: [usize; 3], starts: Option<Vec<usize
         let l11: LazyVecFrom1<usize, u64, usize, u64> = LazyVecFrom1::init("l11", Version::new(1), Box::new(l1.clone()), f1);
         let w: Vec<u64> = a.data.iter().enumerate().map(|(i, &x)| f1(i, f1(i, x))).collect();
         run_check(&mut cs, "LazyVecFrom1(nested)", &l11, &w, 0xdead, desc.clone())?;
+
+        // sources keyed by another index type do not govern the length: every pattern of
+        // governing / non-governing sources (the non-governing ones are kept longer, so that the
+        // formula is defined for every index below the governing length)
+        {
+            let long = a.data.len().max(b.data.len()).max(c.data.len()) + 3;
+            while o1.1.len() < long {
+                let x = cs.rng.below(1000) as u64;
+                o1.0.push(x);
+                o1.1.push(x);
+                let y = cs.rng.below(1000) as u64;
+                o2.0.push(y);
+                o2.1.push(y);
+            }
+            AnyStoredVec::flush(&mut o1.0).expect("flush o1");
+            AnyStoredVec::flush(&mut o2.0).expect("flush o2");
+            let (ob1, ob2) = (|| o1.0.read_only_boxed_clone(), || o2.0.read_only_boxed_clone());
+            let (la, lb, lc) = (a.data.len(), b.data.len(), c.data.len());
+            // From2
+            let l: LazyVecFrom2<usize, u64, usize, u64, Other, u64> = LazyVecFrom2::init("m2a", Version::new(1), a.boxed(), ob1(), f2);
+            let w: Vec<u64> = (0..la).map(|i| f2(i, a.data[i], o1.1[i])).collect();
+            run_check(&mut cs, "LazyVecFrom2(index types T,O)", &l, &w, 0xdead, desc.clone())?;
+            let l: LazyVecFrom2<usize, u64, Other, u64, usize, u64> = LazyVecFrom2::init("m2b", Version::new(1), ob1(), b.boxed(), f2);
+            let w: Vec<u64> = (0..lb).map(|i| f2(i, o1.1[i], b.data[i])).collect();
+            run_check(&mut cs, "LazyVecFrom2(index types O,T)", &l, &w, 0xdead, desc.clone())?;
+            // From3
+            let l: LazyVecFrom3<usize, u64, usize, u64, usize, u64, Other, u64> = LazyVecFrom3::init("m3a", Version::new(1), a.boxed(), b.boxed(), ob1(), f3);
+            let w: Vec<u64> = (0..la.min(lb)).map(|i| f3(i, a.data[i], b.data[i], o1.1[i])).collect();
+            run_check(&mut cs, "LazyVecFrom3(index types T,T,O)", &l, &w, 0xdead, desc.clone())?;
+            let l: LazyVecFrom3<usize, u64, usize, u64, Other, u64, usize, u64> = LazyVecFrom3::init("m3b", Version::new(1), a.boxed(), ob1(), c.boxed(), f3);
+            let w: Vec<u64> = (0..la.min(lc)).map(|i| f3(i, a.data[i], o1.1[i], c.data[i])).collect();
+            run_check(&mut cs, "LazyVecFrom3(index types T,O,T)", &l, &w, 0xdead, desc.clone())?;
+            let l: LazyVecFrom3<usize, u64, Other, u64, usize, u64, usize, u64> = LazyVecFrom3::init("m3c", Version::new(1), ob1(), b.boxed(), c.boxed(), f3);
+            let w: Vec<u64> = (0..lb.min(lc)).map(|i| f3(i, o1.1[i], b.data[i], c.data[i])).collect();
+            run_check(&mut cs, "LazyVecFrom3(index types O,T,T)", &l, &w, 0xdead, desc.clone())?;
+            let l: LazyVecFrom3<usize, u64, usize, u64, Other, u64, Other, u64> = LazyVecFrom3::init("m3d", Version::new(1), a.boxed(), ob1(), ob2(), f3);
+            let w: Vec<u64> = (0..la).map(|i| f3(i, a.data[i], o1.1[i], o2.1[i])).collect();
+            run_check(&mut cs, "LazyVecFrom3(index types T,O,O)", &l, &w, 0xdead, desc.clone())?;
+            let l: LazyVecFrom3<usize, u64, Other, u64, usize, u64, Other, u64> = LazyVecFrom3::init("m3e", Version::new(1), ob1(), b.boxed(), ob2(), f3);
+            let w: Vec<u64> = (0..lb).map(|i| f3(i, o1.1[i], b.data[i], o2.1[i])).collect();
+            run_check(&mut cs, "LazyVecFrom3(index types O,T,O)", &l, &w, 0xdead, desc.clone())?;
+            let l: LazyVecFrom3<usize, u64, Other, u64, Other, u64, usize, u64> = LazyVecFrom3::init("m3f", Version::new(1), ob1(), ob2(), c.boxed(), f3);
+            let w: Vec<u64> = (0..lc).map(|i| f3(i, o1.1[i], o2.1[i], c.data[i])).collect();
+            run_check(&mut cs, "LazyVecFrom3(index types O,O,T)", &l, &w, 0xdead, desc.clone())?;
+        }
 
         // Delta operators; starts restricted to the source's current length
         let n = cum.data.len();
